@@ -24,7 +24,12 @@ def arbiter_config(draw, max_n=6, min_n=1):
         ig = draw(st.sampled_from([x for x in (8, 16, 32, 64) if g <= x <= dw]))
         ifeat = set(draw(gens.wb_features())) | ({"err", "rty"} & set(feat))
         intrs.append({"g": ig, "feat": sorted(ifeat)})
-    return {"aw": draw(st.integers(0, 6)), "dw": dw, "g": g, "feat": feat, "intrs": intrs}
+    # add() calls that must be refused, interleaved with the accepted ones: (position, kind)
+    bad = []
+    if draw(st.integers(0, 3)) == 0:
+        bad = draw(st.lists(st.tuples(st.integers(0, n), st.sampled_from(["aw", "dw", "gran", "lacks_err", "lacks_rty"])).map(list),
+                            min_size=1, max_size=2))
+    return {"aw": draw(st.integers(0, 6)), "dw": dw, "g": g, "feat": feat, "intrs": intrs, "bad_adds": bad}
 
 
 def schedule_spec():
@@ -40,11 +45,45 @@ def schedule_spec():
 def build(cfg):
     arb = wishbone.Arbiter(addr_width=cfg["aw"], data_width=cfg["dw"], granularity=cfg["g"], features=cfg["feat"])
     intrs = []
+    arb.ghosts = []
+
+    def bad_adds(pos):
+        for k, (p, kind) in enumerate(cfg.get("bad_adds", [])):
+            if p != pos:
+                continue
+            feat = set(cfg["feat"]) | {"err", "rty"}
+            kw = dict(addr_width=cfg["aw"], data_width=cfg["dw"], granularity=cfg["dw"], features=sorted(feat))
+            if kind == "aw":
+                kw["addr_width"] = cfg["aw"] + 1
+            elif kind == "dw":
+                kw["data_width"] = 16 if cfg["dw"] != 16 else 32
+                kw["granularity"] = kw["data_width"]
+            elif kind == "gran":
+                if cfg["g"] == 8:
+                    continue
+                kw["granularity"] = 8
+            elif kind == "lacks_err":
+                if "err" not in cfg["feat"]:
+                    continue
+                kw["features"] = sorted(feat - {"err"})
+            elif kind == "lacks_rty":
+                if "rty" not in cfg["feat"]:
+                    continue
+                kw["features"] = sorted(feat - {"rty"})
+            ghost = wishbone.Interface(path=(f"ghost{k}",), **kw)
+            try:
+                arb.add(ghost)
+            except ValueError:
+                arb.ghosts.append(ghost)
+            else:
+                arb.ghost_accepted = True
     for i, s in enumerate(cfg["intrs"]):
+        bad_adds(i)
         f = wishbone.Interface(addr_width=cfg["aw"], data_width=cfg["dw"], granularity=s["g"],
                                features=s["feat"], path=(f"intr{i}",))
         arb.add(f)
         intrs.append(f)
+    bad_adds(len(cfg["intrs"]))
     return arb, intrs
 
 
@@ -84,8 +123,17 @@ def run_schedule(cfg, sched, stats, prop, check_bus, check_next):
     def has(f, k):
         return hasattr(f, k)
 
+    if getattr(arb, "ghost_accepted", False):
+        stats.label("bad_add_accepted_case_skipped")
+        return
+
     async def tb(ctx):
         for t in range(sched["cycles"]):
+            for gi, gh in enumerate(arb.ghosts):      # refused initiators request all the time: must not matter
+                ctx.set(gh.cyc, 1); ctx.set(gh.stb, 1)
+                if len(gh.adr):
+                    ctx.set(gh.adr, hval(seed, f"gh{gi}", t, len(gh.adr)))
+                stats.label("refused_add_ghost")
             req = []
             ins = []
             for i, f in enumerate(intrs):
